@@ -16,6 +16,12 @@ against a fresh session and reports to the Recorder.  Steps:
   event / invoke                               EVENT / INVOCATION for a live subscription / registration
   violate (unknown-id | wrong-type | duplicate) a reply that matches no pending request (last step)
 
+Shared subscription ids: a subscribe step whose SUBSCRIBED reply carries the id of a subscription that already has live
+handlers attaches one more handler to it (what a broker answers for the same topic/match within one session).  An EVENT for
+that id reaches every attached handler; an unsubscribe of one handler while others are attached is LOCAL: no UNSUBSCRIBE
+(and therefore no request id) may be spent, the returned future completes exactly once, successfully; only the last
+handler's unsubscribe sends UNSUBSCRIBE - with the next sequential id.
+
 A reply / event / invoke step may carry ``"then": <request step>``: that request is issued from INSIDE the callback the
 router message triggers (completion callback of the answered request, its on_progress handler, the event handler, the
 endpoint) - i.e. while the session is still dispatching the message; ``"cut": f`` delivers a reply in two reads.
@@ -261,6 +267,7 @@ class Run:
         self.inv_seen = set()
         self.orphans = {}
         self.orphan_ids = set()
+        self.local_unsubs = 0
         self.nested_issued = []
         self.tolerated = dict.fromkeys(KINDS, 0)     # records the library kept after a subscribe/register whose send() raised (grey zone)
 
@@ -342,7 +349,7 @@ class Run:
             dh = len(r.calls) - b[2]
             wc = completes if l == target else 0
             wp = progress if l == target else 0
-            wh = 1 if l == calls_for else 0
+            wh = 1 if (l in calls_for if isinstance(calls_for, (set, frozenset, list, tuple)) else l == calls_for) else 0
             if dc != wc:
                 ok = False
                 if l == target:
@@ -373,11 +380,51 @@ class Run:
         return ok
 
     # -- API requests ---------------------------------------------------------------------------
+    def attached(self, sub_id, but=None):
+        """Model records of the handlers currently attached to subscription ``sub_id``."""
+        return [r for r in self.reqs.values() if r.kind == "subscribe" and r.live and r is not but and strict_eq(r.assigned, sub_id)]
+
     def do_request(self, st):
         snap = self.snap()
+        local = False
+        if st["op"] == "unsubscribe":
+            target = self.reqs.get(st["of"])
+            local = bool(target is not None and target.live and target.obj is not None and self.attached(target.assigned, but=target))
         rq = self.api_call(st)
-        if rq is not None:
+        if rq is None:
+            return
+        if local:
+            self.verify_local_unsubscribe(rq, snap)
+        else:
             self.verify_request(rq, snap)
+
+    def verify_local_unsubscribe(self, rq, snap):
+        """Other handlers stay attached to the subscription: nothing goes over the wire, no request id is spent (the ids of all
+        later requests are checked against the unchanged counter), the future completes exactly once and successfully."""
+        R = self.R
+        R.count("local_unsubscribes_checked")
+        self.local_unsubs += 1
+        msgs = self.rp.recv()
+        if msgs:
+            self.v("unsubscribe/local/message-on-wire", "unsubscribe of one of several handlers of subscription %r sent %d message(s)" % (
+                rq.of.assigned, len(msgs)), msgs=short(msgs))
+            self.dead = True
+            return
+        self.world_settle()
+        if rq.status == "pending":
+            res = rq.outcome.results
+            if len(res) != 1:
+                self.v("unsubscribe/local/%s" % ("not-completed" if not res else "completed-twice"),
+                       "future of a local unsubscribe completed %d times" % len(res), results=short(res))
+            elif res[0][0] != "ok":
+                self.v("unsubscribe/local/rejected", "future of a local unsubscribe failed with %s" % short(res[0][1]))
+            rq.status = "answered-local"
+        self.diff(snap, target=rq.label, completes=1, what="local-unsubscribe")
+        f = self.failed()
+        if f:
+            self.v("unsubscribe/local/transport-failed", "transport failed during a local unsubscribe: %r" % (f,))
+            self.dead = True
+        self.check_tables("after local unsubscribe")
 
     def api_call(self, st, nested=False):
         """Invoke the API for one request step.  Returns the model record, or None when nothing was issued."""
@@ -547,6 +594,8 @@ class Run:
             elif wid != expect:
                 self.v("%s/request/id-not-sequential" % kind, "request id %d, expected %d (sequential from 1 within the session)" % (wid, expect),
                        msg=short(m))
+            if self.local_unsubs:
+                self.R.count("ids_checked_after_local_unsubscribe")
             if wid == MAXID:
                 self.R.count("ids_at_2^53")
             if self.last_id == MAXID and wid == 1:
@@ -829,6 +878,8 @@ class Run:
             elif not getattr(val, "active", False):
                 self.v(base + "/wrong-content/inactive", "%s is not active after the success reply" % type(val).__name__)
             else:
+                if kind == "subscribe" and self.attached(rq.assigned, but=rq):
+                    self.R.count("shared_subscriptions_established")
                 rq.live = True
         # unsubscribe / unregister: success carries no content
 
@@ -852,16 +903,22 @@ class Run:
         extra = self.take_nested(self.rp.recv(), "event")
         if extra:
             self.v("event/unexpected-wire-message", "the session sent messages in reaction to an EVENT", msgs=short(extra))
-        if self.diff(snap, calls_for=rq.label, what="event", msg=msg):
-            a, k = rq.calls[-1]
-            k = dict(k)
-            o = rq.spec.get("opts") or {}
-            dname = "details" if o.get("details") else o.get("details_arg")
-            if dname:
-                k.pop(dname, None)
-            if not strict_eq(list(a), args) or not strict_eq(k, kwargs):
-                self.v("event/wrong-content", "handler got %s %s, EVENT carried %s %s" % (short(a), short(k), short(args), short(kwargs)))
+        group = self.attached(rq.assigned)
+        if self.diff(snap, calls_for={r.label for r in group}, what="event", msg=msg):
+            dnames = {("details" if (r.spec.get("opts") or {}).get("details") else (r.spec.get("opts") or {}).get("details_arg")) for r in group}
+            for r in group:
+                a, k = r.calls[-1]
+                k = dict(k)
+                o = r.spec.get("opts") or {}
+                # several handlers on one subscription: which handler sees whose details kwarg is property C11's business
+                for dname in (dnames if len(group) > 1 else {"details" if o.get("details") else o.get("details_arg")}):
+                    if dname and dname not in kwargs:
+                        k.pop(dname, None)
+                if not strict_eq(list(a), args) or not strict_eq(k, kwargs):
+                    self.v("event/wrong-content", "handler got %s %s, EVENT carried %s %s" % (short(a), short(k), short(args), short(kwargs)))
             self.R.count("events_delivered")
+            if len(group) > 1:
+                self.R.count("events_to_shared_subscription")
         self.check_tables("after event")
 
     def do_invoke(self, st):
